@@ -511,7 +511,7 @@ class Machine:
             if sz is None:
                 raise Unsupported("ptr::read of %s" % (c.ga,))
             return self.load(a[0], sz)
-        if re.search(r"_ptr::<impl \*(const|mut) T>::add$", nm):
+        if re.search(r"_ptr::<impl \*(const|mut) T>::(add|offset)$", nm):
             sz = {"core::arch::x86_64::__m128i": 16, "core::arch::x86_64::__m256i": 32, "u8": 1, "u32": 4, "u64": 8, "i32": 4, "i64": 8, "u16": 2, "i8": 1}.get(c.ga[0])
             if sz is None or not isinstance(a[1], int):
                 raise Unsupported("ptr.add on %s" % c.ga)
